@@ -78,6 +78,7 @@ class Cfg:
         self.filler = 0            # extra small host operators early in file order: event ids beyond 127 / 255
         self.corr_start = None     # all ranks count correlation ids from the same number (ids collide across ranks)
         self.tid_base = 100        # host thread ids are tid_base + rank and 2 * tid_base + rank
+        self.share_streams = 0.0   # probability that a launch of the second host thread goes to a stream of the first
         self.__dict__.update(kw)
 
     def to_json(self) -> Dict[str, Any]:
@@ -105,6 +106,7 @@ def draw_cfg(rng: random.Random, **force: Any) -> Cfg:
     c.filler = rng.choice([130, 260]) if rng.random() < 0.08 else 0
     c.corr_start = rng.choice([None, None, 1, 100])
     c.tid_base = rng.choice([100] * 12 + [3, 2, 1, 50000])
+    c.share_streams = rng.choice([0.0, 0.0, 0.5])
     c.__dict__.update(force)
     return c
 
@@ -127,6 +129,13 @@ class RankSim:
         self.cuda_events: List[Dict[str, int]] = []
         # work enqueued on a stream after a cudaStreamWaitEvent starts no earlier than the awaited event completes
         self.wait_until: Dict[int, int] = {}
+        # per stream: what the first host thread did to it, so that the second thread (simulated afterwards) can put
+        # work on the same stream without breaking stream order or the meaning of recorded events
+        self.tl_kernels: Dict[int, List[Any]] = {s: [] for s in self.stream_ids}   # (launch ts, start, end)
+        self.tl_records: Dict[int, List[int]] = {s: [] for s in self.stream_ids}    # cudaEventRecord call times
+        self.tl_waits: Dict[int, List[Any]] = {s: [] for s in self.stream_ids}      # (cudaStreamWaitEvent call time, done)
+        self.second_thread = False
+        self.main_streams: List[int] = []
         # per-rank vocabulary (ranks differ)
         self.vocab_host = rng.sample(HOST_OPS, rng.randint(3, len(HOST_OPS)))
         self.vocab_comp = rng.sample(COMPUTE_KERNELS, rng.randint(1, len(COMPUTE_KERNELS)))
@@ -177,11 +186,22 @@ class RankSim:
         else:
             hname, hcat = rng.choice(KERNEL_LAUNCHES)
             dcat, dname = "kernel", self.kernel_name()
-        kstart = max(t + self.g * rng.choice([0, 0, 1, 2, 5]),
-                     self.last_end[stream] + self.g * rng.choice([0, 0, 1, 3, 10]),
-                     self.wait_until.get(stream, 0))
-        kdur = self.dur(big=True)
-        self.last_end[stream] = kstart + kdur
+        slot = None
+        if self.second_thread and self.cfg.share_streams and rng.random() < self.cfg.share_streams:
+            slot = self.shared_slot(t)
+        if slot is not None:
+            stream, kstart, hi = slot
+            kdur = self.dur(big=True)
+            if hi is not None:
+                kdur = min(kdur, hi - kstart)
+            self.last_end[stream] = max(self.last_end[stream], kstart + kdur)
+        else:
+            kstart = max(t + self.g * rng.choice([0, 0, 1, 2, 5]),
+                         self.last_end[stream] + self.g * rng.choice([0, 0, 1, 3, 10]),
+                         self.wait_until.get(stream, 0))
+            kdur = self.dur(big=True)
+            self.last_end[stream] = kstart + kdur
+        self.tl_kernels[stream].append((t, kstart, kstart + kdur))
         drop = rng.random()
         if not drop < self.cfg.missing_rate / 2:
             self.x(hcat, hname, self.host_pid, tid, t, d,
@@ -198,6 +218,29 @@ class RankSim:
                 args["registers per thread"] = 32
             self.x(dcat, dname, self.dev_pid, stream, kstart, kdur, args)
         return t + d
+
+    def shared_slot(self, t: int):
+        """A place for work the second host thread launches at time `t` on a stream of the first thread: after the
+        kernels launched before `t`, before the first kernel launched after `t` (stream order), not before an event the
+        stream was told to wait for, and not where it would become the work a recorded event stands for.
+        Returns (stream, start, latest end or None) or None."""
+        cand = list(self.main_streams)
+        self.rng.shuffle(cand)
+        for s in cand:
+            ks = sorted(self.tl_kernels[s])
+            if any(k[0] == t for k in ks) or any(r == t for r in self.tl_records[s]) or any(w[0] == t for w in self.tl_waits[s]):
+                continue
+            prev = [k for k in ks if k[0] < t]
+            nxt = [k for k in ks if k[0] > t]
+            nxt_launch = nxt[0][0] if nxt else None
+            if any(t < r and (nxt_launch is None or r < nxt_launch) for r in self.tl_records[s]):
+                continue
+            lo = max([t] + [k[2] for k in prev] + [w[1] for w in self.tl_waits[s] if w[0] < t])
+            hi = min(k[1] for k in nxt) if nxt else None
+            if hi is not None and lo > hi:
+                continue
+            return s, lo, hi
+        return None
 
     def sync(self, t: int, tid: int, streams: List[int]) -> int:
         """A blocking host call: returns once the awaited stream(s) are idle."""
@@ -230,6 +273,7 @@ class RankSim:
             s = rng.choice(used if used and rng.random() < 0.8 else streams)
             self.x("cuda_runtime", "cudaEventRecord", self.host_pid, tid, t0, d, hargs)
             self.cuda_events.append({"corr": c, "stream": s, "done": max(self.last_end[s], self.wait_until.get(s, 0)), "t": t0})
+            self.tl_records[s].append(t0)
             return t0 + d
         if kind == "query":
             self.x("cuda_runtime", "cudaEventQuery", self.host_pid, tid, t0, d, hargs)
@@ -248,7 +292,8 @@ class RankSim:
                    {"correlation": c, "stream": b, "device": self.rank, "External id": c + 1, "cuda_sync_kind": "Stream Wait Event",
                     "wait_on_stream": e["stream"], "wait_on_cuda_event_record_corr_id": e["corr"], "wait_on_cuda_event_id": 19})
             self.wait_until[b] = max(self.wait_until.get(b, 0), e["done"])
-            if rng.random() < 0.85:
+            self.tl_waits[b].append((t0, e["done"]))
+            if rng.random() < (0.6 if not self.cfg.share_streams else 0.3):
                 # the work that has to wait: the next launch of this thread on the waiting stream
                 return self.launch(t0 + d + g * rng.choice([0, 0, 1]), tid, [b])
             return t0 + d
@@ -339,6 +384,8 @@ class RankSim:
                 t = self.ops_seq(t, rng.randint(1, 2), main_tid, main_streams, self.vocab_host)
         if cfg.two_threads:
             bstreams = self.stream_ids[cfg.nstreams:]
+            self.second_thread = True
+            self.main_streams = list(main_streams)
             if bwd_window is not None:
                 # top-level autograd ops inside the backward window (and one possibly outside)
                 cur = bwd_window[0] + self.g * rng.choice([0, 1])
@@ -351,8 +398,12 @@ class RankSim:
                     if cur >= bwd_window[1]:
                         break
             else:
-                start = t_begin + self.g * rng.choice([0, 1, 4, 9])
-                self.ops_seq(start, rng.randint(1, 3), bwd_tid, bstreams, BWD_OPS)
+                start = t_begin + self.g * rng.choice([0, 1, 4, 9] if not cfg.share_streams else [0, 1, 4, 9, 15, 25, 40, 60])
+                waits = [w[0] for s in main_streams for w in self.tl_waits[s]]
+                if cfg.share_streams and waits and rng.random() < 0.7:
+                    # the second thread gets busy just after the first one told a stream to wait for an event
+                    start = rng.choice(waits) - cfg.offset * 0 + self.g * rng.choice([0, 0, 1])
+                self.ops_seq(start, rng.randint(1, 3) + (2 if cfg.share_streams else 0), bwd_tid, bstreams, BWD_OPS)
         return self.ev
 
 
